@@ -683,6 +683,7 @@ func runTB(dir string, seed uint64, n int) {
 	}
 	defer func() { os.Stdout = stdout }()
 	o := NewOut(dir, "tb")
+	wdWatch(o, dir, "tb", seed)
 	rng := NewRng(seed)
 	for h := 0; h < n; h++ {
 		if h%5 == 4 {
